@@ -160,16 +160,27 @@ def _resolve_at(expr, stmt, fnode, depth=6):
         def __init__(self, st, value):
             self.st, self.value = st, value
 
+    def component(target, value, name):
+        """the component of ``value`` that `(a, (b, c)) = (x, (y, z))` gives to ``name``"""
+        if is_name(target, name):
+            return value
+        if isinstance(target, (ast.Tuple, ast.List)) and isinstance(value, (ast.Tuple, ast.List)) and len(target.elts) == len(value.elts) and not any(isinstance(x, ast.Starred) for x in list(value.elts) + list(target.elts)):
+            for t_, v_ in zip(target.elts, value.elts):
+                hit = component(t_, v_, name)
+                if hit is not None:
+                    return hit
+        return None
+
     def reaching(name, at):
         at = at.st if isinstance(at, _Elem) else at
         for block, i in chains.get(id(at), []):
             for st in reversed(block[:i]):
                 if isinstance(st, ast.Assign) and len(st.targets) == 1 and is_name(st.targets[0], name):
                     return st
-                if isinstance(st, ast.Assign) and len(st.targets) == 1 and isinstance(st.targets[0], (ast.Tuple, ast.List)) and isinstance(st.value, (ast.Tuple, ast.List)) and len(st.targets[0].elts) == len(st.value.elts) and not any(isinstance(x, ast.Starred) for x in st.value.elts):
-                    for t_, v_ in zip(st.targets[0].elts, st.value.elts):
-                        if is_name(t_, name):
-                            return _Elem(st, v_)
+                if isinstance(st, ast.Assign) and len(st.targets) == 1 and isinstance(st.targets[0], (ast.Tuple, ast.List)) and isinstance(st.value, (ast.Tuple, ast.List)):
+                    hit = component(st.targets[0], st.value, name)
+                    if hit is not None:
+                        return _Elem(st, hit)
                 if any(isinstance(x, ast.Name) and x.id == name and isinstance(x.ctx, ast.Store) for x in ast.walk(st)):
                     return None  # defined in a compound / tuple statement: keep the name
         return None
